@@ -524,6 +524,13 @@ func runC18(c *runCfg) error {
 					ps = append(ps, bindP{v: bytes.Repeat([]byte{byte('k' + k + j)}, 7+j+k)})
 				}
 				msgs = append(msgs, mBind(nm, []byte("s"), []int{(k + i) % 2}, ps, nil), mExecute(nm, 0), mBind(nm, []byte("s"), nil, ps[:len(ps)-1], nil), mSync())
+				// closing the portal (and the statement) releases names, not the data a callback still holds
+				if (k+i)%2 == 0 {
+					msgs = append(msgs, mClose('P', nm), mSync(), mClose('S', []byte("s")), mParse([]byte("s"), longQ, 0), mSync())
+				} else {
+					cp := []byte(fmt.Sprintf("closing%d", k))
+					msgs = append(msgs, mBind(cp, []byte("s"), nil, []bindP{{v: bytes.Repeat([]byte{byte('c' + k)}, 9+k)}, {v: []byte("kept by the handler")}}, nil), mExecute(cp, 0), mClose('P', cp), mSync(), mQuery(longQ))
+				}
 			}
 		}
 		msgs = append(msgs, mQuery(longQ), mExecute([]byte("p"), 0), mSync(), mTerminate())
